@@ -25,6 +25,7 @@ import vf
 import c13_zone
 import x13fe
 import x13zb
+import x13lp
 
 MOD = "FailureCache"
 MCSPEC = "MC_FailureCache.tla"
@@ -452,6 +453,8 @@ def run_replay(ctx, path):
         return x13fe.replay_file(ctx, path)
     if driver == x13zb.TEST:                         # the zone / breaker history tier (checks/x13zb.py)
         return x13zb.replay_file(ctx, path)
+    if "cases" in rep and "holdMs" in rep:           # the server-list assembly tier (checks/x13lp.py)
+        return x13lp.replay_file(ctx, path)
     if driver == "TestZoneFailure":
         return c13_zone.replay_zone(ctx, rep)
     if driver == "TestResetRace":                    # a race cannot be replayed step by step: the same stress again
@@ -614,3 +617,6 @@ def run(ctx, replay):
     # upstream failures count, request-local endings (client deadline, hang-up, a faster peer, the tree's own budget) never
     # become shared state, a zone failure only when every server of the zone failed
     x13zb.run_tier(ctx)
+    # how one request tree ASSEMBLES a delegation's server list (ZoneAsm.tla): an empty list caused by the tree's own NS-host
+    # loop guard is request-local -- a zone a fresh request can reach is never published, not even while the tree is at work
+    x13lp.run_tier(ctx)
